@@ -114,6 +114,7 @@ def scenario(pk, params, inp):
         obs0, _ = lin.reset()
         ex = [c.id for c in inner.explorable_coalitions]
         out = {"explorable": ex, "reset_obs": list(obs0), "reset_inner": list(inner.state), "reset_len": len(obs0)}
+        held = [(obs0, list(obs0))]          # (returned object, its content when it was returned)
         if params.get("seq"):
             steps = []
             for kk in params["seq"]:
@@ -133,6 +134,9 @@ def scenario(pk, params, inp):
             inner.step(ex.index(S))
         out["mask"] = [bool(x) for x in lin.action_masks()]
         out["mask_len"] = len(out["mask"])
+        st_obj = lin.state
+        held.append((st_obj, list(st_obj)))
+        lin.action_masks()
         out["state"] = list(lin.state)
         out["inner_state"] = list(inner.state)
         out["known_before"] = [bool(game.is_value_known(C(S))) for S in range(2 ** n)]
@@ -145,6 +149,11 @@ def scenario(pk, params, inp):
                         "known_after": [bool(game.is_value_known(C(S))) for S in range(2 ** n)],
                         "inner_after": list(inner.state), "inner_reward": inner.reward, "inner_done": bool(inner.done),
                         "lin_reward": lin.reward, "lin_done": bool(lin.done)})
+            held.append((obs, list(obs)))
+            lin.action_masks()
+            _ = lin.state
+        out["held_now"] = [list(o) for o, _c in held]
+        out["held_then"] = [c for _o, c in held]
         return out
     finally:
         mod.np = old_np
@@ -185,6 +194,9 @@ def claims(params, inp, out, lg):
         cl.append((f"mask-iff-unknown-of-size:{s}", out["mask"][s] == exists))
     ref = _per_size(lg, out["inner_state"], ex, n)
     cl.append(("state-per-size-sum", lg.And(len(out["state"]) == n, [lg.eq(a, b) for a, b in zip(out["state"], ref)])))
+    if "held_now" in out:
+        cl.append(("returned-observations-are-not-overwritten-by-later-calls",
+                   lg.And([lg.eq(a, b) for now, then in zip(out["held_now"], out["held_then"]) for a, b in zip(now, then)])))
     if out["stepped"]:
         newly = [S for S in range(2 ** n) if out["known_after"][S] and not out["known_before"][S]]
         cl.append(("exactly-one-new-known", len(newly) == 1))
